@@ -652,6 +652,15 @@ def _r7(model, res, g):
             goto.setdefault(x, {})[k] = y
     prods = [(str(p), p.name, p.len, p.func) for p in g.g.Productions]
     tprods = [(a, b, c_, d) for a, b, c_, d, e, f in pt['_lr_productions']]
+    defined = set(p.func for p in g.g.Productions if p.func)
+    unbound = sorted(set(d for a, b, c_, d in tprods if d and d not in defined))
+    if unbound:
+        # ply binds every production of a loaded table to the attribute of that name (LRTable.bind_callables); a name
+        # the grammar object does not define raises there, and yacc() then regenerates the table from the source
+        res.ob('R7', 'parsetab', 'the cached table names action functions the grammar no longer defines (%s): ply fails to bind '
+               'them and regenerates the table' % ', '.join(unbound[:3]), True)
+        res.notes.append('C04.R7: cached parsetab names undefined action functions; ply regenerates it on first use')
+        return
     ok_a = act == dict((k, dict(v)) for k, v in g.action.items())
     ok_g = goto == dict((k, dict(v)) for k, v in g.goto.items() if v)
     ok_p = prods == tprods
